@@ -2,9 +2,18 @@ package c09
 
 import (
 	"context"
+	"database/sql/driver"
+	"regexp"
+	"strconv"
+
+	clcfg "github.com/metrico/cloki-config/config"
+	"github.com/metrico/qryn/reader/utils/dbVersion"
+	"github.com/metrico/qryn/reader/utils/tables"
+
 	"fmt"
 	"io"
 	"math"
+	"qrynverif/fakesql"
 	"reflect"
 	"sort"
 	"strings"
@@ -115,7 +124,9 @@ func plant(root shared.RequestProcessor, fake shared.RequestProcessor) (bool, in
 			if op := cur.Elem().FieldByName("Op"); op.IsValid() && op.Kind() == reflect.String {
 				parent += "(" + op.String() + ")"
 			}
-			mainF.Set(reflect.ValueOf(fake))
+			if fake != nil {
+				mainF.Set(reflect.ValueOf(fake))
+			}
 			return true, depth + 1, parent, nil
 		}
 		cur = mainF
@@ -170,6 +181,7 @@ type runResult struct {
 	batches  int
 	depth    int
 	noSplit  bool
+	sqlSeen  int    // statements of the SQL part answered by the fake database
 	splitAt  string // type of the first in-process stage (the one reading from the getter)
 }
 
@@ -190,6 +202,25 @@ func upstreamRows(rows []refeval.Row, fps []uint64) []shared.LogEntry {
 // decide the split), plants the scripted upstream and drains the output channel the way
 // QueryRangeService does.
 func runChain(query string, p runParams, up *fakeUpstream) (res runResult) {
+	return runChainMode(query, p, up, false)
+}
+
+var (
+	sqlFromRe = regexp.MustCompile(`timestamp_ns\)?\s*>=\s*\(?(\d+)`)
+	sqlToRe   = regexp.MustCompile(`timestamp_ns\)?\s*<\s*\(?(\d+)`)
+	sqlAscRe  = regexp.MustCompile(`(?i)order\s+by\s+[^)]*timestamp_ns\s+asc`)
+	sqlDescRe = regexp.MustCompile(`(?i)order\s+by\s+[^)]*timestamp_ns\s+desc`)
+)
+
+// runChainMode with viaSQL: nothing is planted. The chain keeps its real
+// shared.ClickhouseGetterPlanner; the planner context carries a fakesql session whose handler
+// answers the statement of the SQL part with the scripted entries as database/sql rows in the
+// column order and Go types Scan reads (fingerprint uint64, labels map[string]string, string,
+// timestamp_ns int64), so the real Scan - fresh label map per row, batches of 100, io.EOF
+// marker - is the first producer of the in-process chain. Window and direction are read from
+// the statement itself (the timestamp_ns bounds of SqlMainInitPlanner, the ORDER BY of
+// MainOrderByPlanner).
+func runChainMode(query string, p runParams, up *fakeUpstream, viaSQL bool) (res runResult) {
 	script, err := logql_parser.Parse(query)
 	if err != nil {
 		res.planErr = fmt.Errorf("parse: %w", err)
@@ -200,7 +231,11 @@ func runChain(query string, p runParams, up *fakeUpstream) (res runResult) {
 		res.planErr = err
 		return
 	}
-	ok, depth, parent, err := plant(chain[0], up)
+	var planted shared.RequestProcessor
+	if !viaSQL {
+		planted = up
+	}
+	ok, depth, parent, err := plant(chain[0], planted)
 	if err != nil {
 		res.planErr = fmt.Errorf("harness: %w", err)
 		return
@@ -225,6 +260,52 @@ func runChain(query string, p runParams, up *fakeUpstream) (res runResult) {
 		CHFinalize: true,
 		Step:       time.Duration(p.StepMs) * time.Millisecond,
 		CHSqlCtx:   &sql.Ctx{Params: map[string]sql.SQLObject{}, Result: map[string]sql.SQLObject{}},
+	}
+	if viaSQL {
+		var hErr error
+		fdb := fakesql.New(func(_ context.Context, q string, _ []driver.NamedValue) (*fakesql.Result, error) {
+			if fakesql.IsVersionQuery(q) {
+				return fakesql.AnswerVersion(q), nil
+			}
+			res.sqlSeen++
+			mf, mt := sqlFromRe.FindStringSubmatch(q), sqlToRe.FindStringSubmatch(q)
+			asc, desc := sqlAscRe.MatchString(q), sqlDescRe.MatchString(q)
+			if mf == nil || mt == nil || asc == desc {
+				hErr = fmt.Errorf("harness: cannot read window/direction from the statement: %s", q)
+				return nil, hErr
+			}
+			from, _ := strconv.ParseInt(mf[1], 10, 64)
+			to, _ := strconv.ParseInt(mt[1], 10, 64)
+			var rows [][]any
+			for _, e := range up.rows(from, to, asc) {
+				// clickhouse-go hands a new map for every row
+				lbl := make(map[string]string, len(e.Labels))
+				for k, v := range e.Labels {
+					lbl[k] = v
+				}
+				rows = append(rows, []any{e.Fingerprint, lbl, e.Message, e.TimestampNS})
+			}
+			return fakesql.Rows([]string{"fingerprint", "labels", "string", "timestamp_ns"}, rows...), nil
+		})
+		defer fdb.Close()
+		conn, err := fdb.Registry(&clcfg.ClokiBaseDataBase{}).GetDB(cctx)
+		if err != nil {
+			res.planErr = fmt.Errorf("harness: %w", err)
+			return
+		}
+		vi, err := dbVersion.GetVersionInfo(cctx, false, conn.Session)
+		if err != nil {
+			res.planErr = fmt.Errorf("harness: %w", err)
+			return
+		}
+		pctx.CHDb = conn.Session
+		pctx.VersionInfo = vi
+		pctx = tables.PopulateTableNames(pctx, conn)
+		defer func() {
+			if hErr != nil && res.planErr == nil {
+				res.planErr = hErr
+			}
+		}()
 	}
 	out, err := chain[0].Process(pctx, nil)
 	if err != nil {
